@@ -565,6 +565,12 @@ def check_C12(run: core.Run, replay=None):
         cases += sim_cases("ObjectStore_sim_status.cfg", 250 if quick else 2500, 8, run.seed + 4)
         cases += many_oids_cases(rng, 6 if quick else 40)
         cases += stale_cases(rng, 400 if quick else 10**9)
+        # indexed pushes from sources that lack some of the requested objects (files missing on both sides)
+        partial = [c for c in tlc_generate("c11quick" if quick else "c11")["c11"] if c["idx"]]
+        for c in _sample(partial, 600 if quick else 10**9, rng):
+            cases.append({"init": c["init"], "ops": [xfer_op(c), xfer_op(c, F=[]),
+                                                     {"op": "Status", "s": c["dst"], "ids": c["req"], "shallow": True, "idx": True}],
+                          "kind": "partial-source", "useed": len(cases) % 3})
         run.extra["generated_cases"] = {k: len(v) for k, v in gen.items()}
     traces = execute(cases, run.seed)
     return _finish(run, traces,
